@@ -179,6 +179,21 @@ CLAIMED["C03"] = dict(
     technique="Lean 4 mutual structural induction over a value grammar + regenerated tag tables + differential correspondence at file and read-back level",
     design="7 C03")
 
+CLAIMED["C04"] = dict(
+    text="Kernel-checked: C04_pointlist(+_fields) — for EVERY PointList (>= 1 fields, any names / dtypes, any length incl. 0) "
+         "written into a group that may also hold child nodes and a metadata bundle, the reader (which takes exactly the datasets "
+         "of the group as fields) returns the same fields with the same dtype strings and column tokens and the same length; "
+         "C04_pla / C04_pla_cell — for EVERY PointListArray (any 2D shape incl. zero extents, ragged / empty / all-empty cells) the "
+         "reader returns the same dtype, shape and, cell by cell, the same points; C04_counterexample_no_fields shows the forced "
+         ">= 1 field hypothesis.",
+    note="Columns and cells are tokens (dtype, length, element bytes): what numpy makes of a structured column, np.dtype(str(dt)) "
+         "== dt for scalar field dtypes, and what a vlen read returns are contract H6 and are what the correspondence samples "
+         "(per-field / per-cell tokens before, in the file, and after; cells compared by value in native byte order because "
+         "numpy's append changes the byte order of big-endian cells without changing a point). Excluded: a field named "
+         "'metadatabundle' (known finding, C15).",
+    technique="Lean 4 proofs over a token-level codec model + differential correspondence on per-field / per-cell tokens",
+    design="7 C04")
+
 NOT_YET = {}
 
 def main():
